@@ -161,7 +161,19 @@ func runC11(c *Ctx) {
 		rec.hook++
 		rec.decision = d
 	}
-	sampler := zapcore.NewSamplerWithOptions(inner, tick, N, M, zapcore.SamplerHook(hook))
+	// the sampler is built by either constructor: with a decision hook, by
+	// NewSamplerWithOptions without options, or by the older NewSampler; without
+	// a hook the decisions are read off what reaches the wrapped core
+	noHook := g.Chance(5)
+	var sampler zapcore.Core
+	switch {
+	case !noHook:
+		sampler = zapcore.NewSamplerWithOptions(inner, tick, N, M, zapcore.SamplerHook(hook))
+	case g.Chance(2):
+		sampler = zapcore.NewSamplerWithOptions(inner, tick, N, M)
+	default:
+		sampler = zapcore.NewSampler(inner, tick, N, M)
+	}
 	child := sampler.With([]zapcore.Field{{Key: "k", Type: zapcore.Int64Type, Integer: 1}})
 	epoch := drawEpoch(g)
 	if epoch.Unix() < 1 {
@@ -431,6 +443,11 @@ func runC11(c *Ctx) {
 				c.Fail("C11: an entry with an out-of-range level did not pass unsampled", "%s entry %d level %d: hook=%d forwarded=%d written=%d", what, e.id, e.lvl, rec.hook, rec.forwarded, rec.written)
 				return false
 			}
+		case noHook:
+			if rec.forwarded != rec.written || rec.forwarded > 1 {
+				c.Fail("C11: a decided entry was not forwarded and written at most once", "%s entry %d: forwarded=%d written=%d", what, e.id, rec.forwarded, rec.written)
+				return false
+			}
 		default:
 			if rec.hook != 1 {
 				c.Fail("C11: the decision hook was not called exactly once for a decided entry", "%s entry %d level %d msg %q: hook calls=%d", what, e.id, e.lvl, c11msgs[e.msg], rec.hook)
@@ -505,7 +522,7 @@ func runC11(c *Ctx) {
 			}
 			if w.recs[e.id].forwarded == 1 {
 				admitted++
-			} else if w.recs[e.id].hook == 1 {
+			} else if w.recs[e.id].hook == 1 || (noHook && w.enabled(e.lvl)) {
 				droppedN++
 			}
 		}
